@@ -57,6 +57,9 @@ class Setup:
     if cfg.wd_mode != "none":
       ctx.assume(self.wd != 0)
     self.start = spec.fresh_int("start_preconditioning_step", lo=0)
+    # the refresh intervals are arbitrary: _transform_grad (warm-up boundary, momenta ...) must not depend on them
+    self.precond_interval = spec.fresh_int("preconditioning_compute_steps", lo=1)
+    self.stats_interval = spec.fresh_int("statistics_compute_steps", lo=1)
     LR = z3.Function("LR", z3.IntSort(), z3.RealSort())
     if cfg.lr_sched:
       self.lr_fn = lambda step: SReal(LR(sym._as_int_z(step.item() if isinstance(step, T.Tensor) else step)))
@@ -70,7 +73,8 @@ class Setup:
         best_effort_shape_interpretation=False, graft_type=m.GraftingType[cfg.graft], nesterov=cfg.nesterov,
         moving_average_for_momentum=cfg.moving_avg, decoupled_learning_rate=cfg.decoupled_lr,
         decoupled_weight_decay=(cfg.wd_mode == "decoupled"),
-        skip_preconditioning_rank_lt=(rank + 1 if cfg.skip else 1), skip_preconditioning_dim_size_gt=1 << 40)
+        skip_preconditioning_rank_lt=(rank + 1 if cfg.skip else 1), skip_preconditioning_dim_size_gt=1 << 40,
+        preconditioning_compute_steps=self.precond_interval, statistics_compute_steps=self.stats_interval)
     if extra:
       kw.update(extra)
     self.opt = m.distributed_shampoo(**kw)
